@@ -46,16 +46,16 @@ def sort_attrs(t):
     return t
 
 
-def real_roundtrip(text, opts, encoding, kind):
+def real_roundtrip(text, opts, encoding, kind, nshtml=True):
     import html5lib
     from html5lib.serializer import HTMLSerializer
     tb = html5lib.getTreeBuilder("etree", fullTree=True) if kind == "etree" else html5lib.getTreeBuilder("dom")
-    p = html5lib.HTMLParser(tree=tb)
+    p = html5lib.HTMLParser(tree=tb, namespaceHTMLElements=nshtml)
     t0 = p.parse(text)
     a0 = abstract_of(t0, kind)
     s = HTMLSerializer(inject_meta_charset=False, **opts)
     out = s.render(html5lib.getTreeWalker(kind)(t0), encoding)
-    p2 = html5lib.HTMLParser(tree=tb)
+    p2 = html5lib.HTMLParser(tree=tb, namespaceHTMLElements=nshtml)
     t1 = p2.parse(out, **({"override_encoding": encoding} if encoding else {}))
     return a0, out, list(s.errors), abstract_of(t1, kind), list(p.errors)
 
@@ -486,6 +486,26 @@ def run(ctx):
             opts["alphabetical_attributes"] = True
         enc = ctx.rng.choice([None, None, None, "utf-8", "ascii"])
         one(ctx, doc, opts, enc, "dom" if i % 4 == 0 else "etree", reqs, reals, "G-conf")
+        # the same document as a tree WITHOUT the HTML namespace (namespaceHTMLElements=False): whenever the namespaced
+        # round trip is the identity, the namespace-less one must be too (void elements, optional tags and raw-text
+        # elements are recognised by name in both)
+        if i % 3 == 0:
+            text = conf.render(doc)
+            kind = "dom" if i % 4 == 0 else "etree"
+            try:
+                a0, out, _, a1, _ = real_roundtrip(text, opts, enc, kind)
+                b0, bout, _, b1, _ = real_roundtrip(text, opts, enc, kind, nshtml=False)
+            except Exception as e:
+                ctx.fail("roundtrip-raises:%s" % type(e).__name__, "serialize/parse raised on a conforming document", {"input": text[:600], "options": opts})
+                continue
+            ctx.case("roundtrip-no-html-namespace", "%s|%s|%s|%s" % (text, sorted(opts.items()), enc, kind), nontrivial=True)
+            ctx.count("no-html-namespace:" + kind)
+            cmp_ = sort_attrs if opts.get("alphabetical_attributes") else (lambda t: t)
+            if cmp_(a0) == cmp_(a1) and cmp_(b0) != cmp_(b1):
+                ctx.fail("roundtrip-differs-only-without-html-namespace", "parse(serialize(tree)) is the identity for the namespaced tree "
+                         "but not for the tree parsed with namespaceHTMLElements=False",
+                         {"markup": text[:800], "options": opts, "encoding": enc, "walker": kind, "serialized": str(bout)[:400],
+                          "serialized_namespaced": str(out)[:400]})
     g0_identity(ctx, g0docs, reqs, reals)
     if not any(k.startswith("G0-identity:in-G0:G0-gen") for k in ctx.dist) and ctx.driver_ok:
         ctx.fail("G0-identity:vacuous", "no generated document fell in G0", {})
